@@ -418,3 +418,48 @@ static void run_edgeops(std::istringstream& in) {
   }
   printf("X %s.end\n", id.c_str());
 }
+
+// Q id shape seed modulus keepInterior pre : like S, but on meshes that may carry tangents with
+// marked quads (pre = 1: SmoothOut(52.5, 0.3), pre = 2: SmoothOut(30, 0.3)) and with keepInterior.
+// Prints additionally the marked (inside-quad) undirected edges and the keepInterior flag.
+static void run_subdiv_q(std::istringstream& in) {
+  std::string id;
+  int shape, modulus, keep, pre;
+  uint64_t seed;
+  in >> id >> shape >> seed >> modulus >> keep >> pre;
+  Rng rng(seed);
+  Manifold base = make_shape(shape, rng);
+  if (pre == 1) base = base.SmoothOut(52.5, 0.3);
+  if (pre == 2) base = base.SmoothOut(30.0, 0.3);
+  auto src = impl_of(base);
+  std::ostringstream o;
+  o << "Q " << id;
+  if (base.Status() != Manifold::Error::NoError || src->NumTri() == 0 || !src->ValidTangents()) {
+    o << " SKIP";
+    puts(o.str().c_str());
+    return;
+  }
+  const uint64_t salt = seed * 13 + 5;
+  o << " KI " << keep << " NV " << src->NumVert() << " T " << src->NumTri();
+  for (size_t t = 0; t < src->NumTri(); ++t)
+    for (int i = 0; i < 3; ++i) o << " " << src->halfedge_.Start(3 * t + i);
+  std::ostringstream ed, mk;
+  size_t ne = 0, nm = 0;
+  for (size_t h = 0; h < src->halfedge_.size(); ++h) {
+    const int s = src->halfedge_.Start(h), e = src->halfedge_.End(h);
+    if (s < e) {
+      const vec3 v = src->vertPos_[s] - src->vertPos_[e];
+      ed << " " << s << " " << e << " " << hash_div(v, modulus, salt);
+      ++ne;
+      if (src->IsMarkedInsideQuad(h)) { mk << " " << s << " " << e; ++nm; }
+    }
+  }
+  o << " A " << ne << ed.str() << " M " << nm << mk.str();
+  auto p = std::make_shared<Manifold::Impl>(*src);
+  Vec<Barycentric> vb = p->Subdivide([modulus, salt](vec3 e, vec4, vec4) { return hash_div(e, modulus, salt); }, keep != 0);
+  o << " OUT " << p->NumTri();
+  for (size_t t = 0; t < p->NumTri(); ++t)
+    for (int i = 0; i < 3; ++i) o << " " << p->halfedge_.Start(3 * t + i);
+  o << " NV2 " << p->NumVert();
+  puts(o.str().c_str());
+}
